@@ -7,6 +7,8 @@
 // exceeds 2^31 / 2^32 (index functions only, or a sparse NORESERVE mapping touched at a few cells).
 #include "vh.h"
 
+#include <algorithm>
+
 #include <climits>
 #include <cstring>
 #include <map>
@@ -525,6 +527,7 @@ static void checkForEachBox(const vec3i &lo, const vec3i &hi)
 // ------------------------------------------------------------------ arrays and adaptors
 static const int ID0 = 1000;  // id of cell 0 (non-zero so that "never written" shows)
 
+static inline bool same3(const vec3i &a, const vec3i &b) { return a.x == b.x && a.y == b.y && a.z == b.z; }
 static int clampi(long long v, int lo, int hi) { return v < lo ? lo : v > hi ? hi : (int)v; }
 
 struct Grid  // reference: which id lives where
@@ -850,6 +853,22 @@ static void checkArrays(int dx, int dy, int dz, vh::Rng &r)
           }
     range_t<int> rr = v.getValueRange();
     VH_CHECK(rr.lower == ID0 && rr.upper == ID0 + (int)total - 1, "C17:MultiSlice:getValueRange", "[" + std::to_string(rr.lower) + "," + std::to_string(rr.upper) + "]", ctx);
+    // the adaptor names the slices it was BUILT from: what the caller does with its own vector afterwards (permute it,
+    // reuse it for another volume, let it go) changes nothing
+    {
+      std::reverse(sl.begin(), sl.end());
+      if (dz > 1)
+        sl.pop_back();
+      bool same = same3(v.size(), d) && v.numElements() == total;
+      for (int z = 0; z < dz && same; ++z)
+        same = v.get(vec3i(dx - 1, dy - 1, z)) == g.at(dx - 1, dy - 1, z) && v.get(vec3i(0, 0, z)) == g.at(0, 0, z);
+      std::vector<std::shared_ptr<Array3D<int> > >().swap(sl);  // the caller's vector is gone (a stale reference is an ASan report)
+      for (int z = 0; z < dz && same; ++z)
+        same = v.get(vec3i(0, dy - 1, z)) == g.at(0, dy - 1, z);
+      same = same && same3(v.size(), d);
+      VH_CHECK(same, "C17:MultiSlice:depends-on-the-callers-vector", "after the caller permuted / shortened / released the vector the adaptor was built from, the adaptor's cells or size changed", ctx);
+      vh::count("multislice_checked_after_callers_vector_changed");
+    }
     vh::count("multislice_views");
     vh::maxi("multislice_max_slices", dz);
   }
